@@ -3,8 +3,52 @@ C12 — validation modes change the report, never the verdict; errors point at d
 Model: KinModel/Schema/Events.lean (mode-free event tree `events`, folds `firstErrL` / `collectL`).
 -/
 import KinModel.Schema.Events
+import KinModel.Schema.Defaults
 import KinModel.Props.C01
+import KinModel.Gen.ValidationOptions
+import KinModel.Gen.VisitSites
 namespace KinModel.Schema
+
+/-! ### T0 — the option space is the modelled one (regenerated tables) -/
+
+/-- the SchemaValidationOption constructors of openapi3 and the settings fields each writes: FailFast / MultiErrors are
+`Mode`; VisitAsRequest / VisitAsResponse, the two switch-offs, DisablePatternValidation and DefaultsSet are fields of
+`Env`; SetSchemaRegexCompiler is `Env.regex` (and the history of Props/C01); SetSchemaErrorMessageCustomizer only feeds
+`SchemaError.Error()`; EnableFormatValidation writes a field nobody reads (`format_switch_is_dead`). An option added
+to the source, or one that writes another field, breaks this obligation. -/
+theorem validation_options_are_the_modelled_ones :
+    Gen.validationOptions =
+      [⟨"FailFast", ["failfast=true"]⟩, ⟨"MultiErrors", ["multiError=true"]⟩,
+       ⟨"VisitAsRequest", ["asreq=true", "asrep=false"]⟩, ⟨"VisitAsResponse", ["asreq=false", "asrep=true"]⟩,
+       ⟨"EnableFormatValidation", ["formatValidationEnabled=true"]⟩,
+       ⟨"DisablePatternValidation", ["patternValidationDisabled=true"]⟩,
+       ⟨"DisableReadOnlyValidation", ["readOnlyValidationDisabled=true"]⟩,
+       ⟨"DisableWriteOnlyValidation", ["writeOnlyValidationDisabled=true"]⟩,
+       ⟨"DefaultsSet", ["defaultsSet=f"]⟩, ⟨"SetSchemaErrorMessageCustomizer", ["customizeMessageError=f"]⟩,
+       ⟨"SetSchemaRegexCompiler", ["regexCompiler=c"]⟩] := by decide
+
+/-- which visitor reads which setting: the mode flags are read by the visitors the event model covers and by nothing
+else; the request/response reading and the defaults only by the object visitor and the composition visitor (the deep
+copy per candidate); the customizer by every site that builds a SchemaError -/
+theorem settings_readers_are_the_modelled_ones :
+    Gen.settingsReads =
+      [("failfast", ["expectedType", "visitEnumOperation", "visitJSONArray", "visitJSONNull", "visitJSONNumber", "visitJSONObject",
+                     "visitJSONString", "visitNotOperation", "visitXOFOperations"]),
+       ("multiError", ["visitJSONArray", "visitJSONNumber", "visitJSONObject", "visitJSONString"]),
+       ("asreq", ["visitJSONObject", "visitXOFOperations"]), ("asrep", ["visitJSONObject", "visitXOFOperations"]),
+       ("formatValidationEnabled", []),
+       ("patternValidationDisabled", ["visitJSONString"]),
+       ("readOnlyValidationDisabled", ["visitJSONObject"]), ("writeOnlyValidationDisabled", ["visitJSONObject"]),
+       ("regexCompiler", ["visitJSONString"]), ("onceSettingDefaults", ["visitJSONObject"]), ("defaultsSet", ["visitJSONObject"]),
+       ("customizeMessageError", ["expectedType", "visitEnumOperation", "visitJSON", "visitJSONArray", "visitJSONNull", "visitJSONNumber",
+                                  "visitJSONObject", "visitJSONString", "visitNotOperation", "visitXOFOperations"])] := by decide
+
+/-- `EnableFormatValidation()` cannot influence a verdict: the field it sets is read nowhere in package openapi3 -/
+theorem format_switch_is_dead : Gen.settingsReads.lookup "formatValidationEnabled" = some [] := by decide
+
+/-- openapi3filter hands `MultiErrors()` to every schema visit exactly when `Options.MultiError` is set -/
+theorem every_visit_gets_multi :
+    Gen.visitSites.all (fun r => r.opts.contains "MultiErrors=if options.MultiError") = true := by decide
 
 /-! ### T1 — for EVERY trace the three folds agree on the verdict -/
 
@@ -48,6 +92,45 @@ theorem folds_agree :
     intro t ts ih1 ih2
     simp only [firstCount, collectCount, passCount, ih1.1, ih1.2, ih2.1, ih2.2, and_self]
 
+/-- the general fold reports an error iff the trace fails, WHATEVER the stop policy: no choice of which failing
+checks return at once (no placement of `if settings.failfast`, no `fatal` flag) can change a verdict -/
+theorem run_agrees (π : Policy) :
+    (∀ ev : Ev, ((ev.run π).1.isEmpty = ev.passes) ∧ ((ev.run π).2 = true → (ev.run π).1 ≠ [])) ∧
+    (∀ ts : List (List Ev), runCount π ts = passCount ts) ∧
+    (∀ t : List Ev, (runL π t).1.isEmpty = passesL t) := by
+  refine Ev.passes.mutual_induct
+    (motive_1 := fun ev => ((ev.run π).1.isEmpty = ev.passes) ∧ ((ev.run π).2 = true → (ev.run π).1 ≠ []))
+    (motive_2 := fun ts => runCount π ts = passCount ts)
+    (motive_3 := fun t => (runL π t).1.isEmpty = passesL t)
+    ?f ?ch ?co ?nil ?cons ?nil2 ?cons2
+  case f => intro e fatal; simp [Ev.run, Ev.passes]
+  case ch =>
+    intro tok sub ih
+    refine ⟨?_, ?_⟩
+    · simp only [Ev.run, Ev.passes, ← ih]; cases (runL π sub).1 <;> simp
+    · simp only [Ev.run]; cases (runL π sub).1 <;> simp
+  case co =>
+    intro k e subs ih
+    simp only [Ev.run, Ev.passes, ih]
+    cases compOK k (passCount subs) subs.length <;> simp
+  case nil => simp [runL, passesL]
+  case cons =>
+    intro e es ih1 ih2
+    obtain ⟨h1, h3⟩ := ih1
+    simp only [runL, passesL, ← h1, ← ih2]
+    cases hs : (e.run π).2 with
+    | true =>
+      have hne := h3 hs
+      simp only [if_true]
+      cases hc : (e.run π).1 with
+      | nil => exact absurd hc hne
+      | cons x xs => simp
+    | false => simp only [Bool.false_eq_true, if_false]; cases (e.run π).1 <;> simp
+  case nil2 => simp [runCount, passCount]
+  case cons2 =>
+    intro t ts ih1 ih2
+    simp only [runCount, passCount, ih1, ih2]
+
 /-- **Modes change the report, never the verdict** — on every trace whatsoever. -/
 theorem mode_independent (t : List Ev) (m : Mode) : (report m t).isOk = passesL t := by
   obtain ⟨h1, h2⟩ := folds_agree.2.2 t
@@ -55,6 +138,7 @@ theorem mode_independent (t : List Ev) (m : Mode) : (report m t).isOk = passesL 
   | dflt => simp only [report]; rw [← h1]; cases firstErrL t <;> simp [Res.isOk]
   | failfast => simp only [report]; rw [← h1]; cases firstErrL t <;> simp [Res.isOk]
   | multi => simp only [report]; rw [← h2]; cases collectL t <;> simp [Res.isOk]
+  | ffmulti => simp only [report]; rw [← (run_agrees _).2.2 t]; cases (runL Mode.ffmulti.policy t).1 <;> simp [Res.isOk]
 
 /-! ### the trace generator follows the verdict-level model -/
 
@@ -66,8 +150,9 @@ theorem passesL_append (a b : List Ev) : passesL (a ++ b) = (passesL a && passes
 theorem passesL_chk (bad : Bool) (e : Err) (f : Bool) : passesL (chk bad e f) = !bad := by
   cases bad <;> simp [chk, passesL, Ev.passes]
 
-theorem enumEvs_passes (kw : Kw) (v : J) : passesL (enumEvs kw v) = enumOK kw v := by
-  simp [enumEvs, passesL_chk]
+theorem enumEvsQ_passes (kw : Kw) (v q : J) : passesL (enumEvsQ kw v q) = enumOK kw v := by
+  simp [enumEvsQ, passesL_chk]
+theorem enumEvs_passes (kw : Kw) (v : J) : passesL (enumEvs kw v) = enumOK kw v := enumEvsQ_passes kw v v
 
 theorem checkEvs_passes (cs : List Check) : passesL (checkEvs cs) = cs.all (fun c => !c.1) := by
   induction cs with
@@ -114,8 +199,11 @@ theorem not_decide_lt (m n : Nat) : (!decide (m < n)) = decide (n ≤ m) := by
 
 theorem strEvs_passes (env : Env) (kw : Kw) (s : String) : passesL (strEvs env kw s) = strOK env kw s := by
   simp only [strEvs, checkEvs_passes, strChecks, List.all_cons, List.all_nil, Bool.not_not, Bool.and_true]
-  have hp : (!patCompileBad env kw s && !patBad env kw s) = (kw.pattern == "" || env.regex kw.pattern s == some true) := by
+  have hp : (!patCompileBad env kw s && !patBad env kw s) = (env.patOff || kw.pattern == "" || env.regex kw.pattern s == some true) := by
     unfold patCompileBad patBad
+    cases env.patOff
+    case true => simp
+    simp only [Bool.not_false, Bool.true_and, Bool.false_or]
     by_cases h : kw.pattern = ""
     · simp [h]
     · have e1 : (kw.pattern != "") = true := by simp [h]
@@ -146,17 +234,20 @@ theorem reqChecks_all (env : Env) (p : List (String × S)) (v : J) (kvs : List (
     simp only [reqChecks, List.map_cons, List.all_cons] at ih ⊢
     rw [ih]; simp
 
-theorem arrEvs_passes (kw : Kw) (xs : List J) (ch : List Ev) : passesL (arrEvs kw xs ch) = (arrOK kw xs && passesL ch) := by
-  simp only [arrEvs, passesL_append, checkEvs_passes, arrChecks, List.all_cons, List.all_nil, Bool.not_not, Bool.and_true]
+theorem arrEvsQ_passes (kw : Kw) (xs : List J) (q : J) (ch : List Ev) : passesL (arrEvsQ kw xs q ch) = (arrOK kw xs && passesL ch) := by
+  simp only [arrEvsQ, passesL_append, checkEvs_passes, arrChecksQ, List.all_cons, List.all_nil, Bool.not_not, Bool.and_true]
   have hu : (!(kw.uniqueItems && !uniqueB xs)) = (!kw.uniqueItems || uniqueB xs) := by
     cases kw.uniqueItems <;> simp
   unfold arrOK minItemsBad maxItemsBad
   rw [hu, nat_min_bridge]
   cases hm : kw.maxItems <;> simp only [not_decide_lt, Bool.not_false, Bool.and_assoc, Bool.true_and]
 
-theorem objEvs_passes (env : Env) (kw : Kw) (p : List (String × S)) (kvs : List (String × J)) (ch : List Ev) :
-    passesL (objEvs env kw p kvs ch) = (objOK env kw p kvs && passesL ch) := by
-  simp only [objEvs, passesL_append, checkEvs_passes, objChecks, List.all_cons, List.all_nil, Bool.not_not, Bool.and_true,
+theorem arrEvs_passes (kw : Kw) (xs : List J) (ch : List Ev) : passesL (arrEvs kw xs ch) = (arrOK kw xs && passesL ch) :=
+  arrEvsQ_passes kw xs _ ch
+
+theorem objEvsQ_passes (env : Env) (kw : Kw) (p : List (String × S)) (kvs : List (String × J)) (q : J) (ch : List Ev) :
+    passesL (objEvsQ env kw p kvs q ch) = (objOK env kw p kvs && passesL ch) := by
+  simp only [objEvsQ, passesL_append, checkEvs_passes, objChecksQ, List.all_cons, List.all_nil, Bool.not_not, Bool.and_true,
     reqChecks_all, passesL_chk]
   unfold objOK minPropsBad maxPropsBad
   rw [nat_min_bridge]
@@ -164,15 +255,21 @@ theorem objEvs_passes (env : Env) (kw : Kw) (p : List (String × S)) (kvs : List
     cases kw.permits "object" <;> cases (kw.minProps == 0 || decide (kw.minProps ≤ kvs.length)) <;>
     cases passesL ch <;> cases (kw.required.all (reqOK env p kvs)) <;> cases roBad env p kvs <;> simp
 
-theorem ownEvs_passes (env : Env) (kw : Kw) (p : List (String × S)) (v : J) (ch : List Ev) :
-    passesL (ownEvs env kw p v ch) = ownOK env kw p v (passesL ch) := by
+theorem objEvs_passes (env : Env) (kw : Kw) (p : List (String × S)) (kvs : List (String × J)) (ch : List Ev) :
+    passesL (objEvs env kw p kvs ch) = (objOK env kw p kvs && passesL ch) := objEvsQ_passes env kw p kvs _ ch
+
+theorem ownEvsQ_passes (env : Env) (kw : Kw) (p : List (String × S)) (v q : J) (ch : List Ev) :
+    passesL (ownEvsQ env kw p v q ch) = ownOK env kw p v (passesL ch) := by
   cases v with
-  | null => simp [ownEvs, ownOK, passesL, Ev.passes]
-  | bool b => simp [ownEvs, ownOK, passesL_chk]
-  | num q => simp [ownEvs, ownOK, numEvs_passes]
-  | str x => simp [ownEvs, ownOK, strEvs_passes]
-  | arr xs => simp [ownEvs, ownOK, arrEvs_passes]
-  | obj kvs => simp [ownEvs, ownOK, objEvs_passes]
+  | null => simp [ownEvsQ, ownOK, passesL, Ev.passes]
+  | bool b => simp [ownEvsQ, ownOK, passesL_chk]
+  | num x => simp [ownEvsQ, ownOK, numEvs_passes]
+  | str x => simp [ownEvsQ, ownOK, strEvs_passes]
+  | arr xs => simp [ownEvsQ, ownOK, arrEvsQ_passes]
+  | obj kvs => simp [ownEvsQ, ownOK, objEvsQ_passes]
+
+theorem ownEvs_passes (env : Env) (kw : Kw) (p : List (String × S)) (v : J) (ch : List Ev) :
+    passesL (ownEvs env kw p v ch) = ownOK env kw p v (passesL ch) := ownEvsQ_passes env kw p v v ch
 
 theorem selOK_empty (s : S) : selOK "" s = true := by simp [selOK]
 
@@ -514,11 +611,17 @@ theorem pointers_located (v : J) (t : List Ev) (h : locatedL v t) (m : Mode) :
     cases hc : collectL t with
     | nil => simp [Res.errs]
     | cons a b => simp only [Res.errs]; intro e he; exact h2 e (by rw [hc]; exact he)
+  | ffmulti =>
+    simp only [report]
+    cases (runL Mode.ffmulti.policy t).1 <;> simp [Res.errs]
 
 /-! ### the trace of a schema visit is located in the visited value -/
 
 theorem loc_here (field : String) (v : J) (r : List Frag) : Loc v (here field v r) := by
   left; exact ⟨v, by simp [here, Err.pointer, resolve], by intro q hq; simp [here] at hq; exact hq.symm⟩
+
+theorem loc_hereSoft (field : String) (v : J) (r : List Frag) : Loc v (hereSoft field v r) := by
+  left; exact ⟨v, by simp [hereSoft, Err.pointer, resolve], by simp [hereSoft]⟩
 
 theorem loc_noValue (v : J) (e : Err) (h1 : e.rpath = []) (h2 : e.value = none) : Loc v e := by
   left; exact ⟨v, by simp [Err.pointer, h1, resolve], by intro q hq; simp [h2] at hq⟩
@@ -545,19 +648,30 @@ theorem checkEvs_located (v : J) (cs : List Check) (h : ∀ c ∈ cs, Loc v c.2.
 
 theorem typeErr_loc (kw : Kw) (v : J) : Loc v (typeErr kw v) := loc_here _ _ _
 
-theorem ownEvs_located (env : Env) (kw : Kw) (p : List (String × S)) (v : J) (ch : List Ev) (hch : locatedL v ch) :
-    locatedL v (ownEvs env kw p v ch) := by
+/-- `q` may stand for `v` in quotes: a scalar is quoted as it is, a container as the node it is (`q` = its final content) -/
+def Quotes (v q : J) : Prop :=
+  match v with
+  | .arr _ => True
+  | .obj _ => True
+  | _ => q = v
+
+theorem quotes_self (v : J) : Quotes v v := by cases v <;> simp [Quotes]
+
+theorem ownEvsQ_located (env : Env) (kw : Kw) (p : List (String × S)) (v q : J) (ch : List Ev) (hq : Quotes v q)
+    (hch : locatedL q ch) : locatedL q (ownEvsQ env kw p v q ch) := by
   cases v with
-  | null => simp [ownEvs, locatedL, Ev.located]; exact loc_noValue _ _ rfl rfl
-  | bool b => exact chk_located _ _ _ _ (typeErr_loc _ _)
-  | num q =>
+  | null => simp [ownEvsQ, locatedL, Ev.located]; exact loc_noValue _ _ rfl rfl
+  | bool b => simp only [Quotes] at hq; subst hq; exact chk_located _ _ _ _ (typeErr_loc _ _)
+  | num x =>
+    simp only [Quotes] at hq; subst hq
     apply checkEvs_located
     intro c hc
     simp only [numChecks, List.mem_cons, List.mem_nil_iff, or_false] at hc
     rcases hc with rfl | rfl | rfl | rfl | rfl | rfl | rfl
     · simp only; split <;> exact loc_here _ _ _
-    all_goals exact loc_here _ _ _
+    all_goals first | exact loc_here _ _ _ | exact loc_hereSoft _ _ _
   | str x =>
+    simp only [Quotes] at hq; subst hq
     apply checkEvs_located
     intro c hc
     simp only [strChecks, List.mem_cons, List.mem_nil_iff, or_false] at hc
@@ -566,23 +680,26 @@ theorem ownEvs_located (env : Env) (kw : Kw) (p : List (String × S)) (v : J) (c
     · exact loc_here _ _ _
     · exact loc_here _ _ _
     · exact loc_noValue _ _ rfl rfl
-    · exact loc_here _ _ _
-    · exact loc_here _ _ _
+    · exact loc_hereSoft _ _ _
+    · exact loc_hereSoft _ _ _
   | arr xs =>
     refine locatedL_append (checkEvs_located _ _ ?_) hch
     intro c hc
-    simp only [arrChecks, List.mem_cons, List.mem_nil_iff, or_false] at hc
+    simp only [arrChecksQ, List.mem_cons, List.mem_nil_iff, or_false] at hc
     rcases hc with rfl | rfl | rfl | rfl <;> exact loc_here _ _ _
   | obj kvs =>
     refine locatedL_append (locatedL_append (locatedL_append (checkEvs_located _ _ ?_) hch) (checkEvs_located _ _ ?_))
       (chk_located _ _ _ _ (loc_noValue _ _ rfl rfl))
     · intro c hc
-      simp only [objChecks, List.mem_cons, List.mem_nil_iff, or_false] at hc
+      simp only [objChecksQ, List.mem_cons, List.mem_nil_iff, or_false] at hc
       rcases hc with rfl | rfl | rfl <;> exact loc_here _ _ _
     · intro c hc
       simp only [reqChecks, List.mem_map] at hc
       obtain ⟨k, _, rfl⟩ := hc
       exact loc_required _ _ _
+
+theorem ownEvs_located (env : Env) (kw : Kw) (p : List (String × S)) (v : J) (ch : List Ev) (hch : locatedL v ch) :
+    locatedL v (ownEvs env kw p v ch) := ownEvsQ_located env kw p v v ch (quotes_self v) hch
 
 theorem loc_keyed (kvs : List (String × J)) (pn : String) (x : J) (e : Err)
     (hl : lookup pn kvs = some x) (he : e.rpath = [.key pn]) (hv : e.value = some x) : Loc (.obj kvs) e := by
@@ -610,11 +727,11 @@ theorem discEvs_located (kw : Kw) (v : J) : locatedL v (discEvs kw v) := by
         | some y =>
           cases y with
           | str t => simp only [hl] at hd; split at hd <;> (try split at hd) <;> cases hd
-          | null => simp [hl] at hd; subst hd; exact loc_keyed kvs _ _ _ hl (by simp [discNotStringErr, mark]) (by simp [discNotStringErr, mark])
-          | bool b => simp [hl] at hd; subst hd; exact loc_keyed kvs _ _ _ hl (by simp [discNotStringErr, mark]) (by simp [discNotStringErr, mark])
-          | num q' => simp [hl] at hd; subst hd; exact loc_keyed kvs _ _ _ hl (by simp [discNotStringErr, mark]) (by simp [discNotStringErr, mark])
-          | arr xs => simp [hl] at hd; subst hd; exact loc_keyed kvs _ _ _ hl (by simp [discNotStringErr, mark]) (by simp [discNotStringErr, mark])
-          | obj o => simp [hl] at hd; subst hd; exact loc_keyed kvs _ _ _ hl (by simp [discNotStringErr, mark]) (by simp [discNotStringErr, mark])
+          | null => simp [hl] at hd; subst hd; exact loc_keyed kvs _ _ _ hl (by simp [discNotStringErr, mark, here]) (by simp [discNotStringErr, mark, here])
+          | bool b => simp [hl] at hd; subst hd; exact loc_keyed kvs _ _ _ hl (by simp [discNotStringErr, mark, here]) (by simp [discNotStringErr, mark, here])
+          | num q' => simp [hl] at hd; subst hd; exact loc_keyed kvs _ _ _ hl (by simp [discNotStringErr, mark, here]) (by simp [discNotStringErr, mark, here])
+          | arr xs => simp [hl] at hd; subst hd; exact loc_keyed kvs _ _ _ hl (by simp [discNotStringErr, mark, here]) (by simp [discNotStringErr, mark, here])
+          | obj o => simp [hl] at hd; subst hd; exact loc_keyed kvs _ _ _ hl (by simp [discNotStringErr, mark, here]) (by simp [discNotStringErr, mark, here])
       | null => simp at hd
       | bool b => simp at hd
       | num q => simp at hd
@@ -639,7 +756,7 @@ theorem discEvs_located (kw : Kw) (v : J) : locatedL v (discEvs kw v) := by
             · split at hd
               · cases hd
               · cases hd
-                exact loc_keyed kvs _ _ _ hl (by simp [discUnmappedErr, mark]) (by simp [discUnmappedErr, mark])
+                exact loc_keyed kvs _ _ _ hl (by simp [discUnmappedErr, mark, here]) (by simp [discUnmappedErr, mark, here])
           | null => simp [hl] at hd
           | bool b => simp [hl] at hd
           | num q' => simp [hl] at hd
